@@ -139,7 +139,15 @@ func TransformModuleFilesToModel( //nolint:funlen,gocognit,cyclop
 			rawTypeDefs = append(rawTypeDefs, typeDef)
 		}
 
-		for name, condition := range mdl.GetConditions() {
+		conditionNames := make([]string, 0, len(mdl.GetConditions()))
+		for name := range mdl.GetConditions() {
+			conditionNames = append(conditionNames, name)
+		}
+
+		slices.Sort(conditionNames)
+
+		for _, name := range conditionNames {
+			condition := mdl.GetConditions()[name]
 			if _, ok := conditions[name]; ok {
 				lineIndex := utils.GetConditionLineNumber(name, lines)
 				line, col := utils.ConstructLineAndColumnData(lines, lineIndex, name)
@@ -160,7 +168,18 @@ func TransformModuleFilesToModel( //nolint:funlen,gocognit,cyclop
 		}
 	}
 
-	for filename, typeDefs := range extendedTypeDefs {
+	// apply the extensions in the order the files were provided, so that the outcome does not depend on
+	// the iteration order of the map
+	for _, module := range modules {
+		filename := module.Name
+
+		typeDefs, ok := extendedTypeDefs[filename]
+		if !ok {
+			continue
+		}
+
+		delete(extendedTypeDefs, filename)
+
 		lines := moduleFiles[filename]
 
 		for _, typeDef := range typeDefs {
@@ -210,7 +229,15 @@ func TransformModuleFilesToModel( //nolint:funlen,gocognit,cyclop
 				existingRelationNames = append(existingRelationNames, name)
 			}
 
-			for name, relation := range typeDef.GetRelations() {
+			relationNames := make([]string, 0, len(typeDef.GetRelations()))
+			for name := range typeDef.GetRelations() {
+				relationNames = append(relationNames, name)
+			}
+
+			slices.Sort(relationNames)
+
+			for _, name := range relationNames {
+				relation := typeDef.GetRelations()[name]
 				if slices.Contains(existingRelationNames, name) {
 					lineIndex := utils.GetRelationLineNumber(name, lines)
 					line, col := utils.ConstructLineAndColumnData(lines, lineIndex, name)
